@@ -155,6 +155,7 @@ pub fn run_c07(tier: &str) -> Report {
     let chains = en::fam_chains(2, 29);
     let fam: Vec<u64> = {
         let mut v: Vec<u64> = chains.iter().flatten().copied().filter(|&c| rc::resolution(c).unwrap() > rmax).collect();
+        v.extend(en::aligned_cells());
         v.sort_unstable();
         v.dedup();
         v
@@ -337,7 +338,8 @@ pub fn run_c20(tier: &str) -> Report {
     }
     // deep: family chains, adjacency straddling parent boundaries at every level to r=29
     let mut deep_pairs = 0u64;
-    let chains = en::fam_chains(2, 29);
+    let mut chains = en::fam_chains(2, 29);
+    chains.push(en::aligned_cells()); // word-aligned ids: the numeric neighbour carries over 8..20 digits
     let vs: Vec<Viol> = chains
         .par_iter()
         .flat_map(|chain| {
